@@ -27,6 +27,7 @@ import M4riProofs.MathlibSpec
 import M4riProofs.Top
 import M4riProofs.EchelonTop
 import M4riProofs.GenTie
+import M4riProofs.GenTieGlue
 namespace M4ri.Props.C05
 open M4ri M4ri.BMat
 
@@ -110,5 +111,13 @@ theorem tri_inverse_value {U : BMat} (hU : U.WF) (hsq : U.ncols = U.nrows) (hut 
 #check @M4ri.GenTie.processRows4Split_eq
 #check @M4ri.GenTie.processRows3Split_eq
 #check @M4ri.GenTie.processRows2Split_eq
+
+
+/-! ### tie to the C text: `mzd_trtri_upper` (64-bit regime test, SSE2 split, three windows, the two translated TRSM routines, two recursive
+    calls), `_mzd_pluq` and `_mzd_solve_left` are generated by vlib/ctrans.py on every check and proved equal to the model (GenTieGlue.lean) -/
+#check @M4ri.GenTieGlue.trtriUpperRec_step
+#check @M4ri.GenTieGlue.trtriSplit_lt
+#check @M4ri.GenTieGlue.trtriRec_succ_of_regime
+#check @M4ri.GenTieGlue.regime_overflow
 
 end M4ri.Props.C05
